@@ -14,7 +14,8 @@ ID = "C07"
 RUNS = {"quick": 12000, "thorough": 250000}
 BUDGET_S = {"quick": 60, "thorough": 900}
 RULE = ("seeded scenario scripts: return values / Exception and BaseException classes / no-result, sync and async tasks, durations "
-        "at +-1us around the timeout label, result-backend failures and latency on any subset of saves, object/JSON/pickle stores; "
+        "at +-1us around the timeout label (bodies may raise TimeoutError themselves), labels and the timeout attached untyped by a "
+        "client pre_send middleware in 30% of the runs, result-backend failures and latency on any subset of saves, object/JSON/pickle stores; "
         "non-trivial = overlap or a fault fired; distinct = distinct interleaving signature")
 
 KNOBS = {
